@@ -100,7 +100,9 @@ pub struct ActionRec {
 }
 
 impl ActionRec {
-    pub fn from(a: &TriggerAction<VInstant>) -> ActionRec {
+    pub fn from<T: maybenot::time::Instant<Duration = std::time::Duration>>(
+        a: &TriggerAction<T>,
+    ) -> ActionRec {
         match a {
             TriggerAction::Cancel { machine, timer } => ActionRec {
                 kind: 0,
@@ -189,7 +191,37 @@ pub fn acts_short(a: &[ActionRec]) -> String {
     )
 }
 
-pub type Fw = Framework<Vec<Machine>, SimRng, VInstant>;
+/// The framework under test on one of the two clock types the crate ships an
+/// `Instant` implementation path for: the harness's virtual clock (trait
+/// implemented here) or `std::time::Instant` (trait implemented in the crate's
+/// time.rs, the one every real integration uses). A std instant is
+/// `base + virtual nanoseconds` with a process-wide arbitrary base: the framework
+/// only ever looks at differences, so runs stay reproducible.
+#[derive(Clone)]
+pub enum Fw {
+    V(Framework<Vec<Machine>, SimRng, VInstant>),
+    S(Framework<Vec<Machine>, SimRng, std::time::Instant>),
+}
+
+pub fn std_at(ns: u64) -> std::time::Instant {
+    static BASE: std::sync::OnceLock<std::time::Instant> = std::sync::OnceLock::new();
+    *BASE.get_or_init(std::time::Instant::now) + std::time::Duration::from_nanos(ns)
+}
+
+impl Fw {
+    pub fn trigger(&mut self, evs: &[TriggerEvent], now: u64) -> Vec<ActionRec> {
+        match self {
+            Fw::V(f) => f.trigger_events(evs, VInstant(now)).map(ActionRec::from).collect(),
+            Fw::S(f) => f.trigger_events(evs, std_at(now)).map(ActionRec::from).collect(),
+        }
+    }
+    pub fn verif_snapshot(&self) -> Snapshot {
+        match self {
+            Fw::V(f) => f.verif_snapshot(),
+            Fw::S(f) => f.verif_snapshot(),
+        }
+    }
+}
 
 #[derive(Clone, Debug)]
 pub struct FwCase {
@@ -239,11 +271,23 @@ impl FwCase {
             "first_calls": self.calls.iter().take(12).collect::<Vec<_>>(),
         })
     }
+    /// true: this case runs the framework on `std::time::Instant`
+    pub fn std_clock(&self) -> bool {
+        self.extra["std_clock"].as_bool().unwrap_or(false)
+    }
     pub fn build(&self) -> Result<Fw, String> {
+        self.build_with(self.std_clock())
+    }
+    pub fn build_with(&self, std_clock: bool) -> Result<Fw, String> {
         let ms = self.machines.clone();
         let rng = SimRng::new(&self.rng);
         set_call_word(self.init_word());
-        match catch_sut(|| Framework::new(ms, self.pf, self.bf, VInstant(self.start), rng)) {
+        let r = if std_clock {
+            catch_sut(|| Framework::new(ms, self.pf, self.bf, std_at(self.start), rng).map(Fw::S))
+        } else {
+            catch_sut(|| Framework::new(ms, self.pf, self.bf, VInstant(self.start), rng).map(Fw::V))
+        };
+        match r {
             Ok(Ok(f)) => Ok(f),
             Ok(Err(e)) => Err(format!("Framework::new returned Err: {e}")),
             Err(p) => Err(format!("Framework::new panicked: {p}")),
@@ -278,11 +322,7 @@ pub fn do_call(fw: &mut Fw, case: &FwCase, k: usize, call: &Call) -> Result<Call
     let budget = 2000 * (evs.len() as u64 + 1) * (case.machines.len() as u64 + 1);
     rng_reset(budget);
     maybenot::verif::clear();
-    let r = catch_sut(|| {
-        fw.trigger_events(&evs, VInstant(call.now))
-            .map(ActionRec::from)
-            .collect::<Vec<_>>()
-    });
+    let r = catch_sut(|| fw.trigger(&evs, call.now));
     let words = rng_words();
     rng_reset(u64::MAX);
     match r {
